@@ -32,6 +32,13 @@ def linear(node, env=None, depth=0):
         for k, v in b[0].items():
             atoms[k] = atoms.get(k, 0) + sgn * v
         return {k: v for k, v in atoms.items() if v != 0}, a[1] + sgn * b[1]
+    if isinstance(node, ast.BinOp) and isinstance(node.op, ast.Mult):
+        a, b = linear(node.left, env, depth), linear(node.right, env, depth)
+        if a is not None and b is not None:
+            if not a[0]:
+                return {k: v * a[1] for k, v in b[0].items()}, a[1] * b[1]
+            if not b[0]:
+                return {k: v * b[1] for k, v in a[0].items()}, a[1] * b[1]
     if isinstance(node, ast.UnaryOp) and isinstance(node.op, ast.USub):
         a = linear(node.operand, env, depth)
         if a is None:
